@@ -166,50 +166,63 @@ func C05(c *core.Ctx) {
 	if !c.Quick() {
 		ng = 4
 	}
-	rg, err := c.RunTLC(core.TLCOpts{Module: "MC_ExtendsGraphs", CfgText: fmt.Sprintf("SPECIFICATION Spec\nCONSTANTS N = %d\nINVARIANTS Exact\nCHECK_DEADLOCK FALSE\n", ng), Dump: gdump, Timeout: 30 * time.Minute, Name: "graphs"})
-	if err != nil {
-		c.Inconclusive("MC_ExtendsGraphs failed: " + err.Error())
-		return
-	}
-	c.AddTLC(rg)
-	if rg.Violated != "" {
-		c.Inconclusive("Extends specification violates " + rg.Violated)
-		return
-	}
 	gfiles := map[int]string{1: "compose.yaml", 2: "sub/f2.yaml"}
 	g := 0
-	_, err = core.ReadDump(gdump+".dump", func(vars map[string]interface{}) error {
-		g++
-		wd := filepath.Join(root, fmt.Sprintf("g%d", g))
-		mkdirs(wd)
-		defer os.RemoveAll(wd)
-		nodes := nodesOf(vars["g"])
-		doc, err := c05Materialize(wd, nodes, gfiles)
+	// all graphs on ng services, then the chains on one service more
+	for _, gc := range []struct {
+		n     int
+		chain string
+	}{{ng, "FALSE"}, {ng + 1, "TRUE"}} {
+		rg, err := c.RunTLC(core.TLCOpts{Module: "MC_ExtendsGraphs", CfgText: fmt.Sprintf("SPECIFICATION Spec\nCONSTANTS N = %d\n ChainOnly = %s\nINVARIANTS Exact\nCHECK_DEADLOCK FALSE\n", gc.n, gc.chain), Dump: gdump, Timeout: 30 * time.Minute, Name: "graphs" + gc.chain})
 		if err != nil {
-			return err
+			c.Inconclusive("MC_ExtendsGraphs failed: " + err.Error())
+			return
 		}
-		var shape []string
-		for i := 1; i <= len(nodes); i++ {
-			shape = append(shape, fmt.Sprintf("%s@%d->%d", asStr(nodes[i]["name"]), asInt(nodes[i]["file"]), asInt(nodes[i]["ext"])))
+		c.AddTLC(rg)
+		if rg.Violated != "" {
+			c.Inconclusive("Extends specification violates " + rg.Violated)
+			return
 		}
-		key := strings.Join(shape, " ")
-		expectErr := asBool(vars["expectError"])
-		c.Eval("graph|"+key, true)
-		_, lerr := safeLoad(wd, nil, []namedDoc{{Name: filepath.Join(wd, "compose.yaml")}})
-		rep := map[string]interface{}{"graph": key, "main": doc}
-		switch {
-		case lerr != nil && strings.HasPrefix(lerr.Error(), "panic"):
-			c.Report(core.Finding{Sig: "graph-panic", Detail: fmt.Sprintf("reference graph %s: %v", key, lerr), Replay: rep})
-		case expectErr && lerr == nil:
-			c.Report(core.Finding{Sig: "graph-accepted", Detail: fmt.Sprintf("reference graph %s has a cyclic or dangling extends chain but loads", key), Replay: rep})
-		case !expectErr && lerr != nil:
-			c.Report(core.Finding{Sig: "graph-rejected", Detail: fmt.Sprintf("reference graph %s is sound but fails to load: %v", key, lerr), Replay: rep})
+		_, err = core.ReadDump(gdump+".dump", func(vars map[string]interface{}) error {
+			g++
+			wd := filepath.Join(root, fmt.Sprintf("g%d", g))
+			mkdirs(wd)
+			defer os.RemoveAll(wd)
+			nodes := nodesOf(vars["g"])
+			doc, err := c05Materialize(wd, nodes, gfiles)
+			if err != nil {
+				return err
+			}
+			var shape []string
+			for i := 1; i <= len(nodes); i++ {
+				shape = append(shape, fmt.Sprintf("%s@%d->%d", asStr(nodes[i]["name"]), asInt(nodes[i]["file"]), asInt(nodes[i]["ext"])))
+			}
+			key := strings.Join(shape, " ")
+			expectErr := asBool(vars["expectError"])
+			c.Eval("graph|"+key, true)
+			// the order in which the services are resolved follows map iteration: three loads, the first that deviates is reported
+			var lerr error
+			for rep := 0; rep < 3; rep++ {
+				_, lerr = safeLoad(wd, nil, []namedDoc{{Name: filepath.Join(wd, "compose.yaml")}})
+				if (lerr != nil) != expectErr {
+					break
+				}
+			}
+			rep := map[string]interface{}{"graph": key, "main": doc}
+			switch {
+			case lerr != nil && strings.HasPrefix(lerr.Error(), "panic"):
+				c.Report(core.Finding{Sig: "graph-panic", Detail: fmt.Sprintf("reference graph %s: %v", key, lerr), Replay: rep})
+			case expectErr && lerr == nil:
+				c.Report(core.Finding{Sig: "graph-accepted", Detail: fmt.Sprintf("reference graph %s has a cyclic or dangling extends chain but loads", key), Replay: rep})
+			case !expectErr && lerr != nil:
+				c.Report(core.Finding{Sig: "graph-rejected", Detail: fmt.Sprintf("reference graph %s is sound but fails to load: %v", key, lerr), Replay: rep})
+			}
+			return nil
+		})
+		if err != nil {
+			c.Inconclusive("graph replay: " + err.Error())
+			return
 		}
-		return nil
-	})
-	if err != nil {
-		c.Inconclusive("graph replay: " + err.Error())
-		return
 	}
 	c.Set("reference_graphs", g)
 	c.AddTraces(int64(g))
